@@ -104,6 +104,55 @@ def make_override(fmt, rnd):
     return {'_expect': lambda n: n}
 
 
+def side_by_side_stage(ctx, clean_by_fmt):
+    """Two inspectors of one format fed alternately, each from an image declaring its own size: every one reports
+    the size of ITS stream (nothing about a stream lives anywhere but in its inspector)."""
+    from vf import images, insp
+    from oslo_utils.imageutils import format_inspector as fi
+    rnd = random.Random(ctx.seed + 23)
+    n = 0
+    for fmt, (i, rec) in sorted(clean_by_fmt.items()):
+        if fmt not in SIZED:
+            continue
+        for j in range(6 if ctx.quick else 60):
+            built = []
+            for side in range(2):
+                ov = make_override(fmt, rnd)
+                L, B = ri.gamma(dict(rec['L']))
+                B.update({k: v for k, v in ov.items()})
+                data, bounds = images.build(L, B, rnd)
+                built.append((data, ov['_expect'](len(data))))
+            objs = [fi.ALL_FORMATS[fmt](), fi.ALL_FORMATS[fmt]()]
+            size = rnd.choice([512, 4096, 65536])
+            pos = 0
+            longest = max(len(d) for d, _ in built)
+            mid = []
+            while pos < longest:
+                for k2 in (0, 1):
+                    d = built[k2][0]
+                    if pos < len(d):
+                        objs[k2].eat_chunk(d[pos:pos + size])
+                pos += size
+                mid.append([insp.safe(lambda o=o: o.virtual_size) for o in objs])
+            finals = []
+            for o in objs:
+                o.finish()
+                finals.append(insp.safe(lambda o=o: o.virtual_size))
+            # and a third inspector that has seen nothing reports nothing
+            fresh = insp.safe(lambda: fi.ALL_FORMATS[fmt]().virtual_size)
+            n += 1
+            want = [built[0][1], built[1][1]]
+            stray = [m for m in mid if any(v not in (0, want[k3]) for k3, v in enumerate(m))]
+            if finals != want or fresh != 0 or stray:
+                ctx.violation({'kind': 'side-by-side', 'fmt': fmt, 'fresh_ok': fresh == 0, 'final_ok': finals == want},
+                              {'layout': rec['L'], 'declared': want, 'observed_final': finals, 'fresh_inspector': fresh,
+                               'read_size': size, 'stray_mid_stream': stray[:3]},
+                              '%s: two inspectors fed alternately (read size %d) report %s for streams declaring %s; an unused '
+                              'inspector reports %s' % (fmt, size, finals, want, fresh))
+    ctx.cov['evaluations'] += n
+    ctx.stage('side-by-side', pairs=n)
+
+
 def run(ctx):
     quick = ctx.quick
     ctx.assumptions += ['64-bit arithmetic is evaluated by Python on both sides (the spec carries sizes as symbolic tokens)',
@@ -129,6 +178,7 @@ def run(ctx):
         for j in range(nrand):
             k += 1
             items.append((k, rec, 'rnd'))
+    side_by_side_stage(ctx, clean_by_fmt)
     jobs = [(items[i:i + 16], ctx.seed, not quick) for i in range(0, len(items), 16)]
     all_traces = []
     runs = 0
